@@ -183,7 +183,7 @@ def run(J, maxn, tests_only=False, max_checks=99):
                         for p in ([] if tests_only else [x for x in FILES[c["file"]][:max_checks] if prev.get(x, 2) == 2]):
                             log = os.path.join(OUT, "%s_%s.log" % (c["id"], p))
                             rr = subprocess.run([os.path.join(V, "check"), p, "--tier", "quick"], stdout=open(log, "w"), stderr=subprocess.STDOUT,
-                                                env=dict(os.environ, VERIF_REPO=wt, VERIF_FAILFAST="1"), cwd=V)
+                                                env=dict(os.environ, VERIF_REPO=wt, VERIF_FAILFAST="1", VERIF_SKIP_GATES="1"), cwd=V)
                             r["checks"][p] = rr.returncode
                             if rr.returncode == 1:
                                 r["status"] = "caught"
